@@ -55,6 +55,17 @@ def generate(seed, tier, prop):
     big = rng.random() < 0.05
     program, meta = netgen.gen_program(rng, family=fam, max_junctions=maxj, sorted_labels=True,
                                        big_labels=big)
+    if prop == "C15" and program["fluid"] == "water" and rng.random() < 0.4:
+        # custom fluid (C15's quantifier names custom fluids explicitly): one seeded property class each
+        T = [280.0, 300.0, 320.0, 340.0, 360.0, 380.0]
+        dens = [round(1130.0 - 0.45 * t, 3) for t in T]
+        visc = [round(2e-3 - 4e-6 * t, 9) for t in T]
+        program["fluid_spec"] = {"name": "custom_liquid", "type": "liquid", "props": {
+            "density": rng.choice([["linear", -0.45, 1130.0], ["interextra", T, dens], ["polynominal", T, dens, 2]]),
+            "viscosity": rng.choice([["constant", 8e-4, False], ["constant", 8e-4, True], ["interextra", T, visc],
+                                     ["polynominal", T, visc, 1]]),
+            "heat_capacity": rng.choice([["constant", 4180.0, False], ["linear", 0.5, 4000.0]])}}
+        program["fluid"] = "custom_liquid"
     fault_free = rng.random() < 0.3
     knobs = {
         "numba": rng.random() < 0.5,
